@@ -385,13 +385,17 @@ def rule_manual_advance(em, rep, rid):
             key = '%s:next(%s)' % (f.qname, norm(arg))
             starts = [m for m in em.nodes_for(f, n) if m.kind == 'call' and m.ast is n]
 
-            def kills(m, base=base, arg=arg):
+            # the generator object is also held by a local container: re-binding the name does not drop it
+            kept = any(isinstance(c, ast.Call) and isinstance(c.func, ast.Attribute) and c.func.attr in ('append', 'add', 'insert')
+                       and isinstance(c.func.value, ast.Name) and c.args and is_name(c.args[-1], base) for c in own_nodes(f.node))
+
+            def kills(m, base=base, arg=arg, kept=kept):
                 if m.kind == 'call' and isinstance(m.ast.func, ast.Attribute) and m.ast.func.attr == 'close' \
                         and _base_name(m.ast.func.value) == base:
                     return True
                 if m.kind == 'del' and _base_name(m.ast) == base:
                     return True
-                if m.kind == 'store' and is_name(m.ast, base):
+                if m.kind == 'store' and is_name(m.ast, base) and not kept:
                     return True
                 if m.kind == 'store' and isinstance(arg, ast.Name) is False and isinstance(m.ast, ast.Subscript) and False:
                     return True
@@ -449,6 +453,15 @@ def rule_no_exhaust_then_yield(em, rep, rid):
                 n_loops += 1
                 if body_yields:
                     rep.ok(rid + 'a', key, 'yields while the binder is suspended', f.loc(s))
+                    continue
+                # an aggregation (findall): the body harvests a value into a local container while the answer's
+                # bindings are active; what is yielded afterwards is a fact about the collection, not the answer
+                harvest = [x for b in s.body for x in ast.walk(b)
+                           if (isinstance(x, ast.Call) and isinstance(x.func, ast.Attribute) and x.func.attr in ('append', 'extend', 'add', 'insert')
+                               and isinstance(x.func.value, ast.Name) and x.args) or
+                           (isinstance(x, ast.AugAssign) and isinstance(x.target, ast.Name))]
+                if harvest:
+                    rep.ok(rid + 'b', key, 'aggregation loop: a value is collected from every answer while it is bound', f.loc(s))
                     continue
                 # (b) silent loop: product CFG
                 pcfg = ProductCFG(cfg)
